@@ -43,7 +43,7 @@ var opNames = map[OpCode]string{OpNew: "New", OpAddType: "AddType", OpAddRule: "
 type Obj struct {
 	Kind int  // KSchema, KRegex, KEnum, KDoc
 	Spec int  // index into Schemas / Regexes / Enums / Docs
-	Opt  bool // KSchema: created with jschema.KeysAreOptionalByDefault() (pool_keys.go)
+	Opt  bool // KSchema: created with jschema.KeysAreOptionalByDefault() (pool_keys.go); KDoc: with json.AllowTrailingNonSpaceCharacters()
 }
 
 func (o Obj) Text() string {
@@ -66,6 +66,9 @@ func (o Obj) Ctor() string {
 		return fmt.Sprintf("regex.New(\"rx\", %q)", o.Text())
 	case KEnum:
 		return fmt.Sprintf("enum.New(\"en\", %q)", o.Text())
+	}
+	if o.Opt {
+		return fmt.Sprintf("json.New(\"doc\", %q, json.AllowTrailingNonSpaceCharacters())", o.Text())
 	}
 	return fmt.Sprintf("json.New(\"doc\", %q)", o.Text())
 }
@@ -136,7 +139,12 @@ func (w *World) create(i int) {
 	case KEnum:
 		w.Objs[i] = enum.New("en", o.Text())
 	case KDoc:
-		w.Objs[i] = json.New("doc", o.Text())
+		// the option is an input like the text: the fresh documents of the oracle get it too
+		if o.Opt {
+			w.Objs[i] = json.New("doc", o.Text(), json.AllowTrailingNonSpaceCharacters())
+		} else {
+			w.Objs[i] = json.New("doc", o.Text())
+		}
 	}
 }
 
@@ -477,6 +485,7 @@ var docFit = map[string][]int{
 type gen struct {
 	r         *rand.Rand
 	ro        *rand.Rand // the option bits of the schema objects are drawn from a PRNG of their own
+	rd        *rand.Rand // and so are the option bits of the document objects (nil: no document gets the option)
 	pOptRoot  float64    // probability that a root object is created with KeysAreOptionalByDefault()
 	pOptType  float64    // the same for a type object
 	keys      bool       // keys history (see Generate)
@@ -505,6 +514,10 @@ func (g *gen) newObj(kind, spec int) int {
 		} else {
 			opt = x < g.pOptRoot
 		}
+	}
+	if kind == KDoc && g.rd != nil {
+		// one document object in three is created with json.AllowTrailingNonSpaceCharacters()
+		opt = g.rd.Intn(3) == 0
 	}
 	g.h.Objs = append(g.h.Objs, Obj{Kind: kind, Spec: spec, Opt: opt})
 	g.created = append(g.created, false)
@@ -748,9 +761,12 @@ func (g *gen) observeSchema(i int) {
 //
 // ro: the PRNG of the option bits.  In the other histories every schema object
 // is created with the option with probability 1/5.
-func Generate(r, ro *rand.Rand, withKnown bool, family int) *History {
+//
+// rd: the PRNG of the option bits of the DOCUMENT objects (one in three is created
+// with json.AllowTrailingNonSpaceCharacters()).
+func Generate(r, ro, rd *rand.Rand, withKnown bool, family int) *History {
 	bind, keys := family == FamBind, family == FamKeys
-	g := &gen{r: r, ro: ro, pOptRoot: 0.2, pOptType: 0.2, h: &History{}, withKnown: withKnown, pShare: 0.7, pending: map[int][]Op{}, added: map[int]bool{}, spent: map[int]bool{},
+	g := &gen{r: r, ro: ro, rd: rd, pOptRoot: 0.2, pOptType: 0.2, h: &History{}, withKnown: withKnown, pShare: 0.7, pending: map[int][]Op{}, added: map[int]bool{}, spent: map[int]bool{},
 		advanced: map[int]bool{}, checked: map[int]bool{}, lened: map[int]bool{}}
 	// a history draws its roots either from the base pool (constructs: rules,
 	// enums, allOf, or, key shortcuts, recursion, broken texts) or from the
